@@ -90,6 +90,9 @@ def _t_pderiv(o):
     e1 = tuple(1 if k == 1 else 0 for k in range(o.dim))
     return [(0, 0, o.U(e1, 1), o.U(e0, 0), 1.0 / f), (0, 0, o.U0(1), o.U0(0), np.abs(f) + np.sqrt(f))]
 
+def _t_gmass(o):
+    return [(0, 0, o.U0(1), o.U0(0), o.inp['g'])]
+
 def _t_mass(o):
     return [(0, 0, o.U0(1), o.U0(0), 1.0)]
 
@@ -119,6 +122,8 @@ FORMS = {
     'matpar':   (2, 2, 'inner(K.dot(grad(u)), grad(v))*dx', None, False, {'K': 'par2'}, _t_matpar, False, 1),
     'funcphys': (2, 1, 'sin(g)*v.dx(1)*dx + g*v*dx', None, False, {'g': 'phys'}, _t_funcphys, True, 1),
     'pderiv':   (2, 2, 'Dx(u,0,parametric=True)*Dx(v,1,parametric=True)/f*dx + (abs(f)+sqrt(f))*u*v*dx', None, False, {'f': 'fieldp'}, _t_pderiv, True, 1),
+    'surf':     (2, 2, 'g*u*v*ds', None, False, {'g': 'phys', '_surface': True}, _t_gmass, False, 0),
+    'bdry':     (2, 2, 'g*u*v*ds', None, False, {'g': 'phys', '_boundary': True}, _t_gmass, False, 0),
     # shipped precompiled assemblers (no compilation)
     'mass2':    (2, 2, ('shipped', 'MassAssembler2D'), None, False, {}, _t_mass, False, 0),
     'mass3':    (3, 2, ('shipped', 'MassAssembler3D'), None, False, {}, _t_mass, False, 0),
@@ -175,18 +180,38 @@ def rand_geo(rng, dim, cylinder=False):
 class Oracle:
     """numpy evaluation of the ingredients of the definition at all quadrature nodes"""
 
-    def __init__(self, dim, spaces, geo, nqp, grid, gw):
+    def __init__(self, dim, spaces, geo, nqp, grid, gw, boundary=None):
         from pyiga import bspline
         self.dim = dim
         self.C = [[[X.toarray() for X in bspline.collocation_derivs(kv, g, derivs=2)] for kv, g in zip(kvs, grid)]
                   for kvs in spaces]
+        if boundary is not None:
+            # boundary integral: the assembler keeps, along the normal axis, only the single basis function
+            # that is 1 at the boundary point (S_C[0:1,0:1] resp. [-1:,-1:]); its "collocation matrix" is [[1]]
+            bdax = boundary[0]
+            for Cs in self.C:
+                Cs[bdax] = [np.ones((1, 1)), np.zeros((1, 1)), np.zeros((1, 1))]
         self.nn = int(np.prod([len(g) for g in grid]))
-        J = np.asarray(geo.grid_jacobian(grid)).reshape(self.nn, dim, dim)
+        gdim = geo.dim
+        J = np.asarray(geo.grid_jacobian(grid)).reshape(self.nn, gdim, dim)
         self.J = J
-        self.Jinv = np.linalg.inv(J)
-        self.detJ = np.linalg.det(J)
         self.gw = reduce(np.multiply.outer, gw).ravel()
-        self.W = self.gw * np.abs(self.detJ)
+        if boundary is not None:
+            # ds = |d geo / d x_t| for the tangential coordinate (2D): x-index of grid axis a is dim-1-a
+            assert dim == 2 and gdim == 2
+            t = dim - 1 - (1 - boundary[0])
+            self.W = self.gw * np.linalg.norm(J[:, :, t], axis=1)
+            self.Jinv = None; self.detJ = None
+        elif gdim == dim:
+            self.Jinv = np.linalg.inv(J)
+            self.detJ = np.linalg.det(J)
+            self.W = self.gw * np.abs(self.detJ)
+        else:
+            # surface measure: |d_x geo x d_y geo| (2D -> 3D) resp. |geo'| (1D -> 2D)
+            assert gdim == dim + 1
+            nrm = np.linalg.norm(np.cross(J[:, :, 0], J[:, :, 1]), axis=1) if dim == 2 else np.linalg.norm(J[:, :, 0], axis=1)
+            self.W = self.gw * nrm
+            self.Jinv = None; self.detJ = None
         self.x = np.asarray(geo.grid_eval(grid)).reshape(self.nn, -1)
         self.inp = {}
         self.par = {}
@@ -229,8 +254,9 @@ class AbsOracle:
 
     def __init__(self, o):
         self.o = o; self.dim = o.dim
-        self.inp = {k: np.abs(v) for k, v in o.inp.items()}
-        self.par = {k: np.abs(v) for k, v in o.par.items()}
+        # inputs/parameters as they are: the coefficient is evaluated exactly and |coef| taken in assemble_terms(absolute=True)
+        self.inp = o.inp
+        self.par = o.par
 
     def U(self, D, s): return np.abs(self.o.U(D, s))
     def U0(self, s): return np.abs(self.o.U0(s))
@@ -275,6 +301,15 @@ def make_case(name, seed, tier):
     else:
         kvs1 = kvs0
     geo, gkind = rand_geo(rng, dim, cylinder=bool(inputs.get('_cyl')))
+    boundary = None
+    if inputs.get('_surface'):
+        # graph surface over the perturbed parametrisation: third component a smooth bump
+        from pyiga import bspline as _b
+        c2 = np.asarray(geo.coeffs if gkind == 'bspline' else geo.coeffs[..., :dim] / geo.coeffs[..., -1:])
+        z = rng.uniform(-0.3, 0.3, size=c2.shape[:-1] + (1,))
+        geo, gkind = _b.BSplineFunc(geo.kvs, np.concatenate((c2[..., :dim], z), axis=-1)), 'surface'
+    if inputs.get('_boundary'):
+        boundary = (int(rng.integers(0, dim)), int(rng.integers(0, 2)))
     args = {'geo': geo}
     meta = {}
     for nm, kind in inputs.items():
@@ -296,7 +331,7 @@ def make_case(name, seed, tier):
             a, b = [float(x) for x in rng.integers(1, 4, size=2)]
             args[nm] = (lambda a, b: (lambda *X: 1.0 + a * X[0] + b * X[1] * X[0]))(a, b)
             meta[nm] = (a, b)
-    return dict(dim=dim, arity=arity, kvs0=kvs0, kvs1=kvs1, geo=geo, gkind=gkind, args=args, meta=meta, rng=rng)
+    return dict(dim=dim, arity=arity, kvs0=kvs0, kvs1=kvs1, geo=geo, gkind=gkind, args=args, meta=meta, rng=rng, boundary=boundary)
 
 
 def instantiate(name, case):
@@ -307,7 +342,7 @@ def instantiate(name, case):
     if isinstance(problem, tuple):
         cls = getattr(assemblers, problem[1])
         return assemble.instantiate_assembler(cls, kvs, args, None)
-    return quiet_call(lambda: assemble.instantiate_assembler(problem, kvs, args, bfuns))
+    return quiet_call(lambda: assemble.instantiate_assembler(problem, kvs, args, bfuns, case.get('boundary')))
 
 
 def build_oracle(name, case, asm_nqp=None):
@@ -315,8 +350,12 @@ def build_oracle(name, case, asm_nqp=None):
     dim = case['dim']
     kvs0, kvs1 = case['kvs0'], case['kvs1']
     nqp = max(kv.p for kv in kvs0 + kvs1) + 1 if FORMS[name][4] else max(kv.p for kv in kvs0) + 1
-    grid, gw = make_tensor_quadrature([kv.mesh for kv in kvs0], nqp)
-    o = Oracle(dim, (kvs0, kvs1), case['geo'], nqp, grid, gw)
+    if case.get('boundary') is not None:
+        from pyiga.quadrature import make_boundary_quadrature
+        grid, gw = make_boundary_quadrature([kv.mesh for kv in kvs0], nqp, case['boundary'])
+    else:
+        grid, gw = make_tensor_quadrature([kv.mesh for kv in kvs0], nqp)
+    o = Oracle(dim, (kvs0, kvs1), case['geo'], nqp, grid, gw, boundary=case.get('boundary'))
     for nm, kind in FORMS[name][5].items():
         if nm.startswith('_'):
             continue
@@ -332,18 +371,18 @@ def build_oracle(name, case, asm_nqp=None):
     return o, nqp, grid, gw
 
 
-def assemble_terms(terms, arity, W, nblk):
+def assemble_terms(terms, arity, W, nblk, absolute=False):
     """dense blocks from the term list"""
     if arity == 2:
         blocks = {}
         for (bi, bj, V, U, coef) in terms:
-            c = (np.asarray(coef) * W)
+            c = ((np.abs(coef) if absolute else np.asarray(coef)) * W)
             M = V.T @ (c[:, None] * U)
             blocks[(bi, bj)] = blocks.get((bi, bj), 0.0) + M
         return blocks
     blocks = {}
     for (bi, V, coef) in terms:
-        c = (np.asarray(coef) * W)
+        c = ((np.abs(coef) if absolute else np.asarray(coef)) * W)
         blocks[bi] = blocks.get(bi, 0.0) + V.T @ c
     return blocks
 
@@ -374,7 +413,15 @@ def worker(name, seed, tier):
     terms = termf(o)
     terms_abs = termf(AbsOracle(o))
     kvs0, kvs1 = case['kvs0'], case['kvs1']
-    n0 = int(np.prod([kv.numdofs for kv in kvs0])); n1 = int(np.prod([kv.numdofs for kv in kvs1]))
+    bd = case.get('boundary')
+    nd0 = [kv.numdofs for kv in kvs0]; nd1 = [kv.numdofs for kv in kvs1]
+    msup0 = [(nqp * kv.mesh_support_idx_all()).tolist() for kv in kvs0]
+    msup1 = [(nqp * kv.mesh_support_idx_all()).tolist() for kv in kvs1]
+    if bd is not None:
+        desc['boundary'] = list(bd)
+        nd0[bd[0]] = 1; nd1[bd[0]] = 1
+        msup0[bd[0]] = [[0, 1]]; msup1[bd[0]] = [[0, 1]]
+    n0 = int(np.prod(nd0)); n1 = int(np.prod(nd1))
     nops = 40 * (dim * dim + len(terms))
     cfac = 4.0 * (o.nn + nops) * EPS
     if transc:
@@ -392,7 +439,7 @@ def worker(name, seed, tier):
 
     if arity == 2:
         nc_u, nc_v = (asm.num_components() if is_vec else (1, 1))
-        B = assemble_terms(terms, 2, o.W, None); Ba = assemble_terms(terms_abs, 2, o.W, None)
+        B = assemble_terms(terms, 2, o.W, None); Ba = assemble_terms(terms_abs, 2, o.W, None, absolute=True)
         ref = np.block([[B.get((i, j), np.zeros((n1, n0))) for j in range(nc_u)] for i in range(nc_v)])
         refa = np.block([[Ba.get((i, j), np.zeros((n1, n0))) for j in range(nc_u)] for i in range(nc_v)])
         A = guard(lambda: assemble.assemble_entries(asm, symmetric=False, format='csr', layout='blocked'), 'assemble:' + name)
@@ -411,8 +458,8 @@ def worker(name, seed, tier):
             out['violations'].append(('entry:' + name, 'matrix entry (%d,%d) = %r but the Gauss sum of the definition is %r (tolerance %g; %d entries differ)'
                                       % (i, j, float(A[i, j]), float(ref[i, j]), float(tol[i, j]), len(bad)), desc, True))
         # pairs without common support: must be exactly zero
-        S = mlmatrix.MLStructure.from_kvs(kvs0, kvs1)
-        I, J = S.nonzero()
+        S = mlmatrix.MLStructure.from_kvs(*asm.kvs)     # (for boundary forms asm.kvs has the normal axis removed)
+        I, J = S.nonzero() if S.L > 1 else (S.bidx[0][:, 0], S.bidx[0][:, 1])
         pat = set(zip(I.tolist(), J.tolist()))
         rng = case['rng']
         zero_pairs = []
@@ -445,8 +492,7 @@ def worker(name, seed, tier):
                 out['violations'].append(('pattern:' + name, 'definition has a non-zero entry outside MLStructure.from_kvs pattern', desc, True))
         # sample for the Lean driver model (scalar forms): per-node integrand table
         if not is_vec:
-            ms0 = [(nqp * kv.mesh_support_idx_all()).tolist() for kv in kvs0]
-            ms1 = [(nqp * kv.mesh_support_idx_all()).tolist() for kv in kvs1]
+            ms0, ms1 = msup0, msup1
             N = [len(g) for g in grid]
             nsamp = 24 if dim < 3 else 8
             plist_pat = sorted(pat)
@@ -457,7 +503,7 @@ def worker(name, seed, tier):
                 for (bi, bj, V, U, coef) in terms:
                     F += np.asarray(coef) * o.W * V[:, i] * U[:, j]
                 req = 'entry2 %s %s %s %s %s %d %d %s %s' % (
-                    plist([kv.numdofs for kv in kvs1]), plist([kv.numdofs for kv in kvs0]), supp(ms0), supp(ms1),
+                    plist(nd1), plist(nd0), supp(ms0), supp(ms1),
                     plist([0] * dim), i, j, plist(N), plist(F.tolist(), frac))
                 v = guard(lambda: asm.entry(i, j), 'entry-call:' + name)
                 if v is None: break
@@ -466,7 +512,7 @@ def worker(name, seed, tier):
                                     'refabs': float(refa[i, j])})
     else:
         nc = asm.num_components()[0] if is_vec else 1
-        B = assemble_terms(terms, 1, o.W, None); Ba = assemble_terms(terms_abs, 1, o.W, None)
+        B = assemble_terms(terms, 1, o.W, None); Ba = assemble_terms(terms_abs, 1, o.W, None, absolute=True)
         shape0 = tuple(kv.numdofs for kv in kvs0)
         v = guard(lambda: assemble.assemble_entries(asm, layout='blocked'), 'assemble:' + name)
         if v is None:
@@ -515,7 +561,7 @@ def worker_main():
         pickle.dump(res, fh)
 
 
-def run_workers(ctx, jobs, module='c01', nproc=14, timeout=900):
+def run_workers(ctx, jobs, module='c01', nproc=14, timeout=1500):
     """jobs: list of spec dicts (without 'out'/'xdg').  Returns list of result dicts."""
     xdg = ctx.xdg_cache()
     tmpd = tempfile.mkdtemp(prefix='verif-%s-' % module)
@@ -671,9 +717,37 @@ def check_pxi(ctx):
                       {'stream': 'pxi'}, False)
 
 
+def start_workers(ctx, jobs, module='c01', nproc=14):
+    """run the subprocess pool in a background thread (the Lean build/audit proceed meanwhile)"""
+    import threading
+    box = {}
+    def go():
+        try:
+            box['res'] = run_workers(ctx, jobs, module=module, nproc=nproc)
+        except BaseException as ex:
+            box['err'] = ex
+    th = threading.Thread(target=go, daemon=True)
+    th.start()
+    def join():
+        th.join()
+        if 'err' in box:
+            raise box['err']
+        return box['res']
+    return join
+
+
 def run(ctx):
     ctx.build_repo()
     os.environ['XDG_CACHE_HOME'] = ctx.xdg_cache()
+    reps = 1 if ctx.tier == 'quick' else 12
+    jobs = []
+    for rep in range(reps):
+        for k, name in enumerate(QUICK_FORMS):
+            jobs.append({'name': name, 'seed': int(ctx.seed * 1000003 + rep * 101 + k), 'tier': ctx.tier})
+    # compiled forms first (long), shipped ones fill the gaps
+    jobs.sort(key=lambda j: isinstance(FORMS[j['name']][2], tuple))
+    jobs.append({'name': '_sp10', 'seed': int(ctx.seed), 'tier': ctx.tier})
+    join = start_workers(ctx, jobs)
     ctx.require_lean(['Pyiga.Props.C01', 'drv_c01'])
     ctx.audit(['Pyiga.Props.C01'], THEOREMS, MODULES)
     if ctx.tier == 'thorough':
@@ -682,27 +756,25 @@ def run(ctx):
     ctx.trusted += ['numpy oracle of the definition: pyiga.bspline.collocation_derivs (C02), geometry grid_jacobian/grid_eval (C07), numpy.polynomial leggauss via pyiga.quadrature, numpy.linalg.inv/det, libm',
                     'modelled, not verified: IEEE rounding and -ffast-math re-association (bounded by the forward-error rule), Cython/gcc/dlopen']
     ctx.assumptions += ['middle end (VForm.finalize passes) is covered by C06; here the integrand is an abstract function of the jets (Lean) / evaluated from the definition (numpy)',
-                        'two-space forms use spaces=(0,1) (trial in space 0, test in space 1) on a common mesh; spaces=(1,0) is probed separately',
+                        'two-space forms use spaces=(0,1) (trial in space 0, test in space 1) on a common mesh; spaces=(1,0) is probed separately (open known finding space-order)',
+                        'boundary integrals: value-only integrands (the assembler keeps only the boundary basis function along the normal axis)',
                         'tolerance rule: |impl - oracle| <= 4*(#nodes + 40*(d^2+#terms))*2^-53 * sum_q |terms| (1e-9 * that sum for forms with libm calls)']
-    ctx.rule = ('forms: %d (11 compiled from strings incl. cos/exp/sin/sqrt/abs, parameters of shape ()/(d,)/(d,d), parametric/physical inputs, 2x2 and 2x1 component blocks, '
-                'two-space Petrov-Galerkin, arity-1 scalar and vector; 8 shipped assemblers); per form and seed: random degrees 0/1-4, 1-3(4) non-uniform dyadic spans with repeated '
+    ctx.rule = ('forms: %d (13 compiled from strings incl. cos/exp/sin/sqrt/abs, parameters of shape ()/(d,)/(d,d), parametric/physical inputs, 2x2 and 2x1 component blocks, '
+                'two-space Petrov-Galerkin, arity-1 scalar and vector, surface measure on a 2D->3D surface, boundary integral on a random side; 8 shipped assemblers); per form and seed: '
+                'random degrees 0/1-4, 1-3(4) non-uniform dyadic spans with repeated '
                 'knots, B-spline or NURBS perturbed-identity geometry; every entry vs numpy oracle, 200 no-common-support pairs exactly 0.0, 8-30 entries re-derived by the Lean model '
                 'from per-node integrand tables; non-trivial = instance with >= 2 spans on some axis' % len(FORMS))
     check_pxi(ctx)
     nlay = layout_stream(ctx)
-
-    reps = 1 if ctx.tier == 'quick' else 12
-    jobs = []
-    for rep in range(reps):
-        for k, name in enumerate(QUICK_FORMS):
-            jobs.append({'name': name, 'seed': int(ctx.seed * 1000003 + rep * 101 + k), 'tier': ctx.tier})
-    # compiled forms first (long), shipped ones fill the gaps
-    jobs.sort(key=lambda j: isinstance(FORMS[j['name']][2], tuple))
-    results = run_workers(ctx, jobs)
+    results = join()
+    sp10 = results.pop(); jobs.pop()
     req, meta = [], []
     nforms_ok = 0
     for job, res in zip(jobs, results):
         name = job['name']
+        if res is not None and res.get('status') == 'timeout':
+            from .common import InfraError
+            raise InfraError('worker for form %s timed out (machine overloaded?)' % name)
         if res is None or res.get('status') not in ('ok', 'build-failed'):
             ctx.obligation('worker for form %s' % name, False, (res or {}).get('status', 'none') + ' ' + (res or {}).get('trace', '')[-500:])
             ctx.violation('worker:' + name, 'harness worker for form %s failed: %s' % (name, (res or {}).get('status')), {'trace': (res or {}).get('trace', '')}, False)
@@ -755,14 +827,12 @@ def run(ctx):
     ctx.obligation('stream asm: %d entries re-derived by the Lean driver model within the forward-error rule' % len(req), nd == 0, '%d disagreements' % nd)
     ctx.extra['requests'] = nlay + len(req)
     ctx.extra['form_instances'] = len(jobs)
-    probe_space_order(ctx)
+    probe_space_order(ctx, sp10)
 
 
-def probe_space_order(ctx):
+def probe_space_order(ctx, res):
     """excluded point of `entry_indexing`: trial function in space 1, test function in space 0.
     The generated entry_impl looks j up in the tables of u's space but the base class unravels j with S0_ndofs."""
-    job = {'name': '_sp10', 'seed': int(ctx.seed), 'tier': ctx.tier}
-    res = run_workers(ctx, [job], module='c01')[0]
     if res is not None and str(res.get('status', '')).startswith('crashed'):
         ctx.violation('space-order', 'bilinear form with the trial function in space 1 and the test function in space 0: the process crashed while assembling (%s)' % res.get('status'),
                       {'stream': 'asm/space-order', 'form': 'u*v*dx', 'bfuns': [('u', 1, 1), ('v', 1, 0)]}, True)
